@@ -1,6 +1,7 @@
 import LitexProofs.WaitTimer
 import LitexProofs.Timeout.Wb
 import LitexProofs.Timeout.Axi
+import LitexProofs.Timeout.BusErr
 /-
   C11 — A silent or absent slave cannot hang the bus.
 
@@ -227,11 +228,30 @@ theorem wb_unmapped_address (s : State) (x : BusIn)
     ((out c s x).toS j).cyc = false := by
   simp [out, sel, bus, hun]
 
-/-- Bounded termination from *any* state reached: whatever happened before, if the owner now keeps `cyc & stb`,
-    it is acknowledged (by a slave or by the timeout) within `count + 1 ≤ t + 1` cycles. -/
-theorem wb_bounded_termination (ht : c.t = some t) (xs : List BusIn) :
-    ((machine c).run xs).count ≤ t := by
-  rw [run_count_spec c ht]; omega
+/-- **Bounded termination**, for every history: the bus owner is never left with an unacknowledged request for
+    more than `t` consecutive cycles (in the `(t+1)`-th it is acknowledged, by a slave or by the timeout). -/
+theorem wb_bounded_termination (ht : c.t = some t) (xs : List BusIn) : waited c xs ≤ t :=
+  (wb_timeout_exact c ht xs { ms := fun _ => {}, ss := fun _ => {} }).1
+
+/-! Non-vacuity: a 2-master x 2-slave interconnect (`timeout_cycles = 3`, slave `j` at addresses `2j, 2j+1`) on
+    which master 0 requests the silent slave 1: the streak really reaches `t`, the forced acknowledge appears in
+    the 4th cycle with `0xff` and `error`, and the hypotheses of the scenario theorems are satisfied. -/
+def cfgWb : Wb.Cfg := { n := 2, k := 2, dec := fun j a => (a >>> 1) == j, reg := false, t := some 3, dw := 8 }
+
+def reqIn : BusIn := { ms := fun i => if i = 0 then { cyc := true, stb := true, adr := 2 } else {}, ss := fun _ => {} }
+
+example : waited cfgWb [reqIn, reqIn, reqIn] = 3 ∧ waited cfgWb [reqIn, reqIn, reqIn, reqIn] = 0 ∧
+    ((machine cfgWb).trace [reqIn, reqIn, reqIn, reqIn]).map (fun o => ((o.toM 0).ack, (o.toM 0).datR, o.error)) =
+      [(false, 0, false), (false, 0, false), (false, 0, false), (true, 255, true)] := by decide
+
+example : slavesAck cfgWb reqIn = false ∧ (reqIn.ms ((machine cfgWb).run []).grant).cyc = true ∧
+    waited cfgWb [] = 0 := by decide
+
+/-- An answer in time is passed through (slave 1 acks with `0x5a` in the third cycle, no error). -/
+example :
+    let ackIn : BusIn := { reqIn with ss := fun j => if j = 1 then { ack := true, datR := 0x5a } else {} }
+    ((machine cfgWb).trace [reqIn, reqIn, ackIn, reqIn]).map (fun o => ((o.toM 0).ack, (o.toM 0).datR, o.error)) =
+      [(false, 0, false), (false, 0, false), (true, 0x5a, false), (false, 0, false)] := by decide
 
 end wbShared
 
@@ -463,6 +483,404 @@ theorem axl_rd_timeout_bound (full : Bool) (dw t : Nat) (ys : List RIn) (x0 x1 x
   · exact axl_rd_recovers full dw t s2 x2 hs2 h2.1 h2.2
 
 end axFsm
+
+/-! ## AXI-Lite / AXI `…InterconnectShared` with `timeout_cycles = t` (arbiter + decoder + timeout)
+
+  `c.full = false`: `AXILiteInterconnectShared`; `c.full = true`: `AXIInterconnectShared`.  Any number of masters
+  and slaves, any decoder.  The *owner* is the master holding the write (resp. read) grant. -/
+
+section axShared
+open Axi
+variable (c : Axi.Cfg) {t : Nat}
+
+/-- **axl_shared_wr_exact.**  For every history from reset, with `waited` the number of consecutive preceding
+    cycles in which the FSM was in WAIT and the owner had an AW/W beat that was not accepted (observed at the
+    owner's port): the error pulse occurs exactly when `waited ≥ t` and the owner is again left waiting in this
+    cycle; in RESPOND the owner sees the forced handshake/response and all other masters see nothing. -/
+theorem axl_shared_wr_exact (ht : c.t = some t) (xs : List WBusIn) (x : WBusIn) :
+    let s := (SharedW.machine c).run xs
+    let o := SharedW.out c s x
+    (o.error = true ↔ t ≤ SharedW.waited c xs ∧ SharedW.ownerWaits c s x = true) ∧
+    (s.tm.respond = true →
+      (o.toM s.grant).awr = (x.ms s.grant).awv ∧ (o.toM s.grant).wr = (x.ms s.grant).wv ∧
+      (o.toM s.grant).bv = (!(x.ms s.grant).awv && !(x.ms s.grant).wv) ∧
+      (o.toM s.grant).bresp = RESP_SLVERR ∧ o.error = false ∧
+      ∀ i, i ≠ s.grant → (o.toM i).awr = false ∧ (o.toM i).wr = false ∧ (o.toM i).bv = false) := by
+  intro s o
+  have hc : s.tm.count = t - min t (SharedW.waited c xs) := SharedW.run_count_spec c ht xs
+  have hd : WaitTimer.done s.tm.count = true ↔ t ≤ SharedW.waited c xs := by
+    simp [WaitTimer.done, hc]; omega
+  constructor
+  · show (SharedW.tRes c s x).error = true ↔ _
+    rw [SharedW.ownerWaits_eq c ht, SharedW.tRes_some c ht]
+    cases hr : s.tm.respond <;> simp [wOut, wWait, hr, hd]
+  · intro hr
+    have hres := SharedW.tRes_some c ht s x
+    have hne : ∀ i, i ≠ s.grant → (s.grant == i) = false := fun i hi => by
+      simp; exact fun h => hi h.symm
+    refine ⟨?_, ?_, ?_, ?_, ?_, ?_⟩ <;>
+      simp only [o, SharedW.out, hres, axl_wr_forced _ _ hr, SharedW.tIn, SharedW.bus, beq_self_eq_true,
+                 Bool.and_true]
+    intro i hi; simp [hne i hi]
+
+/-- **axl_shared_wr_undisturbed.**  While the write FSM is in WAIT — in particular whenever the slave accepts
+    within `t` cycles, *including* the expiry cycle — every port carries exactly what the interconnect without a
+    timeout (`timeout_cycles=None`) would carry, and arbiter grant, lock counter and registered select evolve
+    identically.  (What the slaves see never depends on the timeout at all — also not in RESPOND, which is the
+    root of finding C11-axi-stale-late-response.) -/
+theorem axl_shared_wr_undisturbed (ht : c.t = some t) (s : DState) (x : WBusIn) (hr : s.tm.respond = false) :
+    (∀ i, (SharedW.out c s x).toM i = (SharedW.out { c with t := none } s x).toM i) ∧
+    (∀ j, (SharedW.out c s x).toS j = (SharedW.out { c with t := none } s x).toS j) ∧
+    (SharedW.next c s x).grant = (SharedW.next { c with t := none } s x).grant ∧
+    (SharedW.next c s x).lock = (SharedW.next { c with t := none } s x).lock ∧
+    (SharedW.next c s x).selReg = (SharedW.next { c with t := none } s x).selReg := by
+  have hres : ∀ (f : WOut → Bool), (f = WOut.awr ∨ f = WOut.wr ∨ f = WOut.bv) →
+      f (SharedW.tRes c s x) = f (SharedW.tRes { c with t := none } s x) := by
+    intro f hf
+    rw [SharedW.tRes_some c ht]
+    rcases hf with rfl | rfl | rfl <;> simp [wOut, hr, SharedW.tRes, SharedW.tIn, SharedW.sel, selOf]
+  have hb : (SharedW.tRes c s x).bresp = (SharedW.tRes { c with t := none } s x).bresp := by
+    rw [SharedW.tRes_some c ht]; simp [wOut, hr, SharedW.tRes, SharedW.tIn, SharedW.sel, selOf]
+  have h1 := hres WOut.awr (Or.inl rfl)
+  have h2 := hres WOut.wr (Or.inr (Or.inl rfl))
+  have h3 := hres WOut.bv (Or.inr (Or.inr rfl))
+  have hrr : SharedW.rrReq c s x = SharedW.rrReq { c with t := none } s x := by
+    funext i; simp only [SharedW.rrReq, h3]
+  refine ⟨?_, fun j => rfl, ?_, ?_, rfl⟩
+  · intro i; simp only [SharedW.out, h1, h2, h3, hb]
+  · simp only [SharedW.next, SharedW.ce, hrr, h3]
+  · simp only [SharedW.next, SharedW.req, SharedW.resp, h1, h3]
+
+/-- **axl_timeout_bound / recovers on the composed interconnect (write), exact numbers — `_partial`.**
+    Hypotheses that delimit the region in which the property holds on the unchanged tree (all decidable on the
+    trace): shared interconnect; the fault lies before/within the address-data phase (`hsil`: no slave accepts
+    anything up to the expiry cycle — a fault in the *response* phase is never timed out, see
+    `axl_response_phase_hangs`); for "afterwards … normally" additionally no slave may accept a beat in the RESPOND
+    cycles `x1`, `x2` (else its late answer hits the next transaction, see the stale-response witness) — the
+    conclusions below about the interconnect itself hold without that last hypothesis.
+    State `s`: no write outstanding (`lock = 0`), FSM in reset state.  The owner offers AW and W and every slave stays silent.
+    Cycles `0 … t-1` (`ys`): nothing; cycle `t` (`x0`): `error = 1`, still nothing accepted; cycle `t+1` (`x1`):
+    AW and W accepted by the timeout; cycle `t+2` (`x2`, owner has dropped its valids, `b.ready = 1`): `B` with
+    `SLVERR`.  Afterwards: same owner, `lock = 0` again (the forced request and response were both counted),
+    FSM in its reset state — the interconnect is exactly as before the request. -/
+theorem axl_wr_timeout_bound_partial (ht : c.t = some t) (s : DState) (hgn : s.grant < c.n)
+    (hl : s.lock = 0) (htm : s.tm = fInit t) (ys : List WBusIn) (x0 x1 x2 : WBusIn) (hlen : ys.length = t)
+    (hreq : ∀ y ∈ ys ++ [x0, x1], (y.ms s.grant).awv = true ∧ (y.ms s.grant).wv = true)
+    (hsil : ∀ y ∈ ys ++ [x0], SharedW.Silent y)
+    (h2 : (x2.ms s.grant).awv = false ∧ (x2.ms s.grant).wv = false ∧ (x2.ms s.grant).br = true) :
+    let m := SharedW.machine c
+    let g := s.grant
+    let s0 := m.runFrom s ys
+    let s1 := m.next s0 x0
+    let s2 := m.next s1 x1
+    let s3 := m.next s2 x2
+    (∀ o ∈ m.traceFrom s ys, o.error = false ∧ (o.toM g).awr = false ∧ (o.toM g).wr = false ∧ (o.toM g).bv = false) ∧
+    ((m.out s0 x0).error = true ∧ ((m.out s0 x0).toM g).awr = false ∧ ((m.out s0 x0).toM g).wr = false ∧
+      ((m.out s0 x0).toM g).bv = false) ∧
+    (((m.out s1 x1).toM g).awr = true ∧ ((m.out s1 x1).toM g).wr = true ∧ ((m.out s1 x1).toM g).bv = false ∧
+      (m.out s1 x1).error = false) ∧
+    (((m.out s2 x2).toM g).bv = true ∧ ((m.out s2 x2).toM g).bresp = RESP_SLVERR ∧ (m.out s2 x2).error = false) ∧
+    (s3.grant = g ∧ s3.lock = 0 ∧ s3.tm = fInit t) := by
+  intro m g s0 s1 s2 s3
+  have hys : ∀ y ∈ ys, (y.ms s.grant).awv = true ∧ (y.ms s.grant).wv = true ∧ SharedW.Silent y :=
+    fun y hy => ⟨(hreq y (by simp [hy])).1, (hreq y (by simp [hy])).2, hsil y (by simp [hy])⟩
+  obtain ⟨a1, a2, a3, a4⟩ := SharedW.silent_waiting c ht ys s t hgn hl htm (by omega) (by omega) hys
+  have a3' : s0.tm = { count := 0, respond := false } := by
+    show ((SharedW.machine c).runFrom s ys).tm = _
+    rw [a3, hlen]; simp
+  have hx0 := hreq x0 (by simp)
+  have hx1 := hreq x1 (by simp)
+  have hg0 : s0.grant = s.grant := a1
+  obtain ⟨b1, b2, b3, b4, b5, b6, b7⟩ := SharedW.silent_wait_step c ht s0 x0 (by rw [hg0]; exact hgn) a2
+    (by rw [a3']) (by rw [hg0]; exact hx0.1) (by rw [hg0]; exact hx0.2) (hsil x0 (by simp))
+  have hg1 : s1.grant = s.grant := by show (SharedW.next c s0 x0).grant = _; rw [b5, hg0]
+  have hr1 : s1.tm.respond = true := by
+    show (SharedW.next c s0 x0).tm.respond = true
+    rw [b7, a3']; simp [WaitTimer.done]
+  obtain ⟨c1, c2, c3, c4, c5, c6, c7⟩ := SharedW.silent_absorb_step c ht s1 x1 (by rw [hg1]; exact hgn) b6 hr1
+    (by rw [hg1]; exact hx1.1) (by rw [hg1]; exact hx1.2)
+  have hg2 : s2.grant = s.grant := by show (SharedW.next c s1 x1).grant = _; rw [c5, hg1]
+  have hr2 : s2.tm.respond = true := by show (SharedW.next c s1 x1).tm.respond = true; rw [c7]
+  obtain ⟨d1, d2, d3, d4, d5, d6⟩ := SharedW.silent_b_step c ht s2 x2 (by rw [hg2]; exact hgn) c6 hr2
+    (by rw [hg2]; exact h2.1) (by rw [hg2]; exact h2.2.1) (by rw [hg2]; exact h2.2.2)
+  refine ⟨a4, ⟨?_, ?_, ?_, ?_⟩, ⟨?_, ?_, ?_, c4⟩, ⟨?_, ?_, d3⟩, ?_, d5, d6⟩
+  · show (SharedW.out c s0 x0).error = true
+    rw [b4, a3']; simp [WaitTimer.done]
+  · have h' := b1; rw [hg0] at h'; exact h'
+  · have h' := b2; rw [hg0] at h'; exact h'
+  · have h' := b3; rw [hg0] at h'; exact h'
+  · have h' := c1; rw [hg1] at h'; exact h'
+  · have h' := c2; rw [hg1] at h'; exact h'
+  · have h' := c3; rw [hg1] at h'; exact h'
+  · have h' := d1; rw [hg2] at h'; exact h'
+  · have h' := d2; rw [hg2] at h'; exact h'
+  · show (SharedW.next c s2 x2).grant = _; rw [d4, hg2]
+
+/-- **axl_shared_rd_exact.** -/
+theorem axl_shared_rd_exact (ht : c.t = some t) (xs : List RBusIn) (x : RBusIn) :
+    let s := (SharedR.machine c).run xs
+    let o := SharedR.out c s x
+    (o.error = true ↔ t ≤ SharedR.waited c xs ∧ SharedR.ownerWaits c s x = true) ∧
+    (s.tm.respond = true →
+      (o.toM s.grant).arr = (x.ms s.grant).arv ∧ (o.toM s.grant).rv = (!(x.ms s.grant).arv) ∧
+      (o.toM s.grant).rresp = RESP_SLVERR ∧ (o.toM s.grant).rdata = Wb.ones c.dw ∧
+      (c.full = true → (o.toM s.grant).rlast = true) ∧ o.error = false ∧
+      ∀ i, i ≠ s.grant → (o.toM i).arr = false ∧ (o.toM i).rv = false) := by
+  intro s o
+  have hc : s.tm.count = t - min t (SharedR.waited c xs) := SharedR.run_count_spec c ht xs
+  have hd : WaitTimer.done s.tm.count = true ↔ t ≤ SharedR.waited c xs := by
+    simp [WaitTimer.done, hc]; omega
+  constructor
+  · show (SharedR.tRes c s x).error = true ↔ _
+    rw [SharedR.ownerWaits_eq c ht, SharedR.tRes_some c ht]
+    cases hr : s.tm.respond <;> simp [rOut, rWait, hr, hd]
+  · intro hr
+    have hres := SharedR.tRes_some c ht s x
+    have hne : ∀ i, i ≠ s.grant → (s.grant == i) = false := fun i hi => by
+      simp; exact fun h => hi h.symm
+    refine ⟨?_, ?_, ?_, ?_, ?_, ?_, ?_⟩ <;>
+      simp only [o, SharedR.out, hres, axl_rd_forced _ _ _ _ hr, SharedR.tIn, SharedR.bus, beq_self_eq_true,
+                 Bool.and_true]
+    · intro hf; simp [hf]
+    · intro i hi; simp [hne i hi]
+
+/-- **axl_shared_rd_undisturbed.** -/
+theorem axl_shared_rd_undisturbed (ht : c.t = some t) (s : DState) (x : RBusIn) (hr : s.tm.respond = false) :
+    (∀ i, (SharedR.out c s x).toM i = (SharedR.out { c with t := none } s x).toM i) ∧
+    (∀ j, (SharedR.out c s x).toS j = (SharedR.out { c with t := none } s x).toS j) ∧
+    (SharedR.next c s x).grant = (SharedR.next { c with t := none } s x).grant ∧
+    (SharedR.next c s x).lock = (SharedR.next { c with t := none } s x).lock ∧
+    (SharedR.next c s x).selReg = (SharedR.next { c with t := none } s x).selReg := by
+  have e : SharedR.tRes c s x =
+      { SharedR.tRes { c with t := none } s x with
+        error := WaitTimer.done s.tm.count && rWaitCond (SharedR.tIn c s x) } := by
+    rw [SharedR.tRes_some c ht]; simp [rOut, hr, SharedR.tRes, SharedR.tIn, SharedR.sel, selOf]
+  have hrr : SharedR.rrReq c s x = SharedR.rrReq { c with t := none } s x := by
+    funext i; simp only [SharedR.rrReq, e]
+  refine ⟨?_, fun j => rfl, ?_, ?_, rfl⟩
+  · intro i; simp only [SharedR.out, e]
+  · simp only [SharedR.next, SharedR.ce, hrr, e]
+  · simp only [SharedR.next, SharedR.req, SharedR.resp, e]
+
+/-- **axl_timeout_bound / recovers on the composed interconnect (read), exact numbers — `_partial`** (same
+    region as the write theorem: shared interconnect, fault in the address phase): error in cycle `t`, AR
+    accepted by the timeout in cycle `t+1`, `R` with `SLVERR`, all-ones data (and `last` on AXI) in cycle `t+2`;
+    afterwards same owner, `lock = 0`, FSM in reset state. -/
+theorem axl_rd_timeout_bound_partial (ht : c.t = some t) (s : DState) (hgn : s.grant < c.n)
+    (hl : s.lock = 0) (htm : s.tm = fInit t) (ys : List RBusIn) (x0 x1 x2 : RBusIn) (hlen : ys.length = t)
+    (hreq : ∀ y ∈ ys ++ [x0, x1], (y.ms s.grant).arv = true)
+    (hsil : ∀ y ∈ ys ++ [x0], SharedR.Silent y)
+    (h2 : (x2.ms s.grant).arv = false ∧ (x2.ms s.grant).rr = true) :
+    let m := SharedR.machine c
+    let g := s.grant
+    let s0 := m.runFrom s ys
+    let s1 := m.next s0 x0
+    let s2 := m.next s1 x1
+    let s3 := m.next s2 x2
+    (∀ o ∈ m.traceFrom s ys, o.error = false ∧ (o.toM g).arr = false ∧ (o.toM g).rv = false) ∧
+    ((m.out s0 x0).error = true ∧ ((m.out s0 x0).toM g).arr = false ∧ ((m.out s0 x0).toM g).rv = false) ∧
+    (((m.out s1 x1).toM g).arr = true ∧ ((m.out s1 x1).toM g).rv = false ∧ (m.out s1 x1).error = false) ∧
+    (((m.out s2 x2).toM g).rv = true ∧ ((m.out s2 x2).toM g).rresp = RESP_SLVERR ∧
+      ((m.out s2 x2).toM g).rdata = Wb.ones c.dw ∧ (c.full = true → ((m.out s2 x2).toM g).rlast = true) ∧
+      (m.out s2 x2).error = false) ∧
+    (s3.grant = g ∧ s3.lock = 0 ∧ s3.tm = fInit t) := by
+  intro m g s0 s1 s2 s3
+  have hys : ∀ y ∈ ys, (y.ms s.grant).arv = true ∧ SharedR.Silent y :=
+    fun y hy => ⟨hreq y (by simp [hy]), hsil y (by simp [hy])⟩
+  obtain ⟨a1, a2, a3, a4⟩ := SharedR.silent_waiting c ht ys s t hgn hl htm (by omega) (by omega) hys
+  have a3' : s0.tm = { count := 0, respond := false } := by
+    show ((SharedR.machine c).runFrom s ys).tm = _
+    rw [a3, hlen]; simp
+  have hx0 := hreq x0 (by simp)
+  have hx1 := hreq x1 (by simp)
+  have hg0 : s0.grant = s.grant := a1
+  obtain ⟨b1, b2, b4, b5, b6, b7⟩ := SharedR.silent_wait_step c ht s0 x0 (by rw [hg0]; exact hgn) a2
+    (by rw [a3']) (by rw [hg0]; exact hx0) (hsil x0 (by simp))
+  have hg1 : s1.grant = s.grant := by show (SharedR.next c s0 x0).grant = _; rw [b5, hg0]
+  have hr1 : s1.tm.respond = true := by
+    show (SharedR.next c s0 x0).tm.respond = true
+    rw [b7, a3']; simp [WaitTimer.done]
+  obtain ⟨c1, c2, c4, c5, c6, c7⟩ := SharedR.silent_absorb_step c ht s1 x1 (by rw [hg1]; exact hgn) b6 hr1
+    (by rw [hg1]; exact hx1)
+  have hg2 : s2.grant = s.grant := by show (SharedR.next c s1 x1).grant = _; rw [c5, hg1]
+  have hr2 : s2.tm.respond = true := by show (SharedR.next c s1 x1).tm.respond = true; rw [c7]
+  obtain ⟨d1, d2, d2', d2'', d3, d4, d5, d6⟩ := SharedR.silent_r_step c ht s2 x2 (by rw [hg2]; exact hgn) c6 hr2
+    (by rw [hg2]; exact h2.1) (by rw [hg2]; exact h2.2)
+  refine ⟨a4, ⟨?_, ?_, ?_⟩, ⟨?_, ?_, c4⟩, ⟨?_, ?_, ?_, ?_, d3⟩, ?_, d5, d6⟩
+  · show (SharedR.out c s0 x0).error = true
+    rw [b4, a3']; simp [WaitTimer.done]
+  · have h' := b1; rw [hg0] at h'; exact h'
+  · have h' := b2; rw [hg0] at h'; exact h'
+  · have h' := c1; rw [hg1] at h'; exact h'
+  · have h' := c2; rw [hg1] at h'; exact h'
+  · have h' := d1; rw [hg2] at h'; exact h'
+  · have h' := d2; rw [hg2] at h'; exact h'
+  · have h' := d2'; rw [hg2] at h'; exact h'
+  · have h' := d2''; rw [hg2] at h'; exact h'
+  · show (SharedR.next c s2 x2).grant = _; rw [d4, hg2]
+
+/-- **unmapped_address (AXI).**  With no response outstanding (`lock = 0`), an address matching no decoder
+    raises `aw.valid`/`w.valid` (resp. `ar.valid`) at no slave and no slave's `ready` reaches the bus: the
+    request waits and is timed out as in `axl_*_timeout_bound_partial`. -/
+theorem axl_unmapped_address (s : DState) (hl : s.lock = 0) :
+    (∀ (x : WBusIn), (∀ j, c.dec j (x.ms s.grant).awa = false) →
+      (∀ j, ((SharedW.out c s x).toS j).awv = false ∧ ((SharedW.out c s x).toS j).wv = false) ∧
+      (SharedW.tIn c s x).awr = false ∧ (SharedW.tIn c s x).wr = false) ∧
+    (∀ (x : RBusIn), (∀ j, c.dec j (x.ms s.grant).ara = false) →
+      (∀ j, ((SharedR.out c s x).toS j).arv = false) ∧ (SharedR.tIn c s x).arr = false) := by
+  constructor
+  · intro x hun
+    have hsel : ∀ j, SharedW.sel c s x j = false := fun j => by
+      simp [SharedW.sel, selOf, ctrReady, hl, SharedW.bus, hun]
+    exact ⟨fun j => by simp [SharedW.out, hsel], Wb.orAll_false (fun j => by simp [hsel]),
+           Wb.orAll_false (fun j => by simp [hsel])⟩
+  · intro x hun
+    have hsel : ∀ j, SharedR.sel c s x j = false := fun j => by
+      simp [SharedR.sel, selOf, ctrReady, hl, SharedR.bus, hun]
+    exact ⟨fun j => by simp [SharedR.out, hsel], Wb.orAll_false (fun j => by simp [hsel])⟩
+
+end axShared
+
+/-! ## Known findings on the AXI-Lite / AXI shared interconnects: negative witnesses
+
+  Full statement of the property (does **not** hold on the unchanged tree, hence the `_partial` theorems above):
+
+      theorem axl_timeout_bound_open : every write (read) of the owner whose B (R) response has not arrived
+        `t + 2` cycles after the slave stopped making progress — in the address phase, the data phase *or the
+        response phase* — is terminated with SLVERR, and afterwards every transaction receives its own response.
+
+  Excluded regions (each decidable on the trace) and their witnesses:
+    * response phase (`C11-axi-response-phase-unwatched`): the slave accepted AW+W (AR) and never answers;
+    * late answer (`C11-axi-stale-late-response`): a slave accepts a beat during RESPOND (or accepted AW but not W
+      before expiry) and answers after the forced response. -/
+
+section axFindings
+open Axi
+
+/-- **Negative witness, response phase (for all run lengths and all configurations).**  Once the FSM is in WAIT
+    and no master offers an AW/W beat (they are all waiting for `B`) while no slave sends `b.valid`, nothing ever
+    happens again: no `b.valid` reaches any master, no `error` pulse, the lock counter keeps its value — if it is
+    non-zero (a write was accepted, see the `example` below) the owner waits for its `B` forever and, the grant
+    being frozen by the lock, every other master is blocked as well. -/
+theorem axl_response_phase_hangs (c : Axi.Cfg) (t : Nat) (ht : c.t = some t) (xs : List WBusIn) :
+    ∀ (s : DState), s.tm.respond = false →
+    (∀ x ∈ xs, (∀ i, (x.ms i).awv = false ∧ (x.ms i).wv = false) ∧ ∀ j, (x.ss j).bv = false) →
+    (∀ o ∈ (SharedW.machine c).traceFrom s xs, o.error = false ∧ ∀ i, (o.toM i).bv = false) ∧
+    ((SharedW.machine c).runFrom s xs).lock = s.lock ∧
+    ((SharedW.machine c).runFrom s xs).tm.respond = false ∧
+    (s.lock ≠ 0 → s.grant < c.n → ((SharedW.machine c).runFrom s xs).grant = s.grant) := by
+  induction xs with
+  | nil => intro s hr _; simp [Machine.runFrom, Machine.traceFrom, hr]
+  | cons x xs ih =>
+    intro s hr hidle
+    obtain ⟨hm, hs⟩ := hidle x (by simp)
+    have hi : (SharedW.tIn c s x).awv = false ∧ (SharedW.tIn c s x).wv = false ∧ (SharedW.tIn c s x).bv = false :=
+      ⟨(hm _).1, (hm _).2, Wb.orAll_false (fun j => by simp [hs j])⟩
+    have hres : (SharedW.tRes c s x).bv = false ∧ (SharedW.tRes c s x).error = false := by
+      rw [SharedW.tRes_some c ht]; simp [wOut, hr, hi.2.2, wWaitCond, hi.1, hi.2.1]
+    have hlock : (SharedW.next c s x).lock = s.lock := by
+      simp [SharedW.next, SharedW.req, SharedW.resp, hres.1, SharedW.bus, (hm _).1]
+    have hresp : (SharedW.next c s x).tm.respond = false := by
+      rw [SharedW.next_tm c ht]; simp [wNext, hr, wWaitCond, hi.1, hi.2.1]
+    have hgrant : s.lock ≠ 0 → s.grant < c.n → (SharedW.next c s x).grant = s.grant := by
+      intro hl hg
+      have hce : SharedW.ce c s x = false := by simp [SharedW.ce, ctrReady, hl]
+      simp only [SharedW.next, hce]; exact RoundRobin.next_ce_hold _ hg
+    obtain ⟨r1, r2, r3, r4⟩ := ih (SharedW.next c s x) hresp (fun y hy => hidle y (by simp [hy]))
+    refine ⟨?_, ?_, r3, ?_⟩
+    · intro o ho
+      simp only [Machine.traceFrom, List.mem_cons] at ho
+      rcases ho with rfl | ho
+      · exact ⟨hres.2, fun i => by simp [SharedW.machine, SharedW.out, hres.1]⟩
+      · exact r1 o ho
+    · show ((SharedW.machine c).runFrom (SharedW.next c s x) xs).lock = _
+      rw [r2, hlock]
+    · intro hl hg
+      show ((SharedW.machine c).runFrom (SharedW.next c s x) xs).grant = _
+      rw [r4 (by rw [hlock]; exact hl) (by rw [hgrant hl hg]; exact hg), hgrant hl hg]
+
+/-- Concrete 1x1 AXI-Lite interconnect, `timeout_cycles = 3`, slave 0 at addresses `0..15`. -/
+def cfg11 : Axi.Cfg := { n := 1, k := 1, dec := fun j a => (a >>> 4) == j, t := some 3, dw := 32, full := false }
+
+def wIn (m : WM) (sl : WS) : WBusIn := { ms := fun _ => m, ss := fun _ => sl }
+
+/-- The excluded region is reachable: the slave accepts AW+W in cycle 0 (`lock` becomes 1, FSM stays in WAIT);
+    by `axl_response_phase_hangs` a slave that now stays silent hangs the bus although `timeout_cycles = 3`. -/
+example :
+    let s1 := SharedW.next cfg11 (dInit cfg11) (wIn { awv := true, wv := true } { awr := true, wr := true })
+    s1.lock = 1 ∧ s1.tm.respond = false := by decide
+
+/-- What the owner sees on `b.valid`/`b.resp` and the `error` flag, cycle by cycle. -/
+def bTrace (c : Axi.Cfg) (xs : List WBusIn) : List (Bool × Nat × Bool) :=
+  ((SharedW.machine c).trace xs).map fun o => ((o.toM 0).bv, (o.toM 0).bresp, o.error)
+
+/-- **Negative witness, stale late response** (the trace of `harness/c11lib.py: probe_stale_response`).
+    Write #1 is offered in cycles 0–4; the slave is silent in cycles 0–3 and ready from cycle 4 on, i.e. it takes
+    AW+W in the RESPOND cycle in which the timeout also takes them.  The owner gets the forced `SLVERR` in cycle
+    5.  The slave answers write #1 (`OKAY`, resp 0) from cycle 10 on; nobody listens (`b.ready = 0`).  Write #2
+    is offered in cycle 12 and accepted at once; in cycle 13 the owner, now waiting for the response of write #2,
+    receives `b.valid` with the slave's answer to write #1. -/
+example :
+    let req : WM := { awv := true, wv := true }
+    let idle : WM := {}
+    let waitB : WM := { br := true }
+    let silent : WS := {}
+    let ready : WS := { awr := true, wr := true }
+    let readyB : WS := { awr := true, wr := true, bv := true, bresp := 0 }
+    bTrace cfg11
+      ([wIn req silent, wIn req silent, wIn req silent, wIn req silent,      -- 0-3: waiting, error in cycle 3
+        wIn req ready,                                                       -- 4: RESPOND absorbs; slave too
+        wIn waitB ready,                                                     -- 5: forced B (SLVERR) taken
+        wIn idle ready, wIn idle ready, wIn idle ready, wIn idle ready,      -- 6-9
+        wIn idle readyB, wIn idle readyB,                                    -- 10-11: slave's late B, not taken
+        wIn req readyB,                                                      -- 12: write #2 accepted
+        wIn waitB readyB])                                                   -- 13: owner takes write #1's B
+    = [(false, 0, false), (false, 0, false), (false, 0, false), (false, 0, true),
+       (false, 2, false),
+       (true, 2, false),
+       (false, 0, false), (false, 0, false), (false, 0, false), (false, 0, false),
+       (true, 0, false), (true, 0, false),
+       (true, 0, false),
+       (true, 0, false)] := by decide
+
+/-- Non-vacuity of the read theorems on AXI (`full = true`): silent slave, `timeout_cycles = 3` — nothing for
+    cycles 0–2, `error` in cycle 3, AR accepted by the timeout in cycle 4, `R` = SLVERR / all ones / `last` in
+    cycle 5, idle again in cycle 6. -/
+example :
+    let c : Axi.Cfg := { cfg11 with full := true }
+    let rIn (m : RM) : RBusIn := { ms := fun _ => m, ss := fun _ => {} }
+    let req : RM := { arv := true }
+    ((SharedR.machine c).trace [rIn req, rIn req, rIn req, rIn req, rIn req, rIn { rr := true }, rIn {}]).map
+      (fun o => ((o.toM 0).arr, (o.toM 0).rv, (o.toM 0).rresp, (o.toM 0).rdata, (o.toM 0).rlast, o.error)) =
+    [(false, false, 0, 0, false, false), (false, false, 0, 0, false, false), (false, false, 0, 0, false, false),
+     (false, false, 0, 0, false, true),
+     (true, false, 2, 0xffffffff, true, false),
+     (false, true, 2, 0xffffffff, true, false),
+     (false, false, 0, 0, false, false)] := by decide
+
+end axFindings
+
+/-! ## Bus error counter (`SoCController.bus_errors`, fed by `timeout.error`) -/
+
+section busErr
+open BusErr
+
+/-- From any start value `c0` not above the maximum: after a history of `bus_error` values the counter holds
+    `min (c0 + number of pulses) (2^w - 1)`. -/
+theorem bus_errors_counts_from (w : Nat) (l : List Bool) (c0 : Nat) (h : c0 ≤ maxVal w) :
+    (BusErr.machine w c0).run l = min (c0 + pulses l) (maxVal w) :=
+  BusErr.runFrom_spec w l c0 c0 h
+
+/-- **bus_errors_counts.**  The 32-bit (any width `w`) counter equals the number of cycles in which the timeout
+    signalled `error`, saturating at `2^w - 1` (it never wraps). -/
+theorem bus_errors_counts (w : Nat) (l : List Bool) :
+    (BusErr.machine w).run l = min (pulses l) (2 ^ w - 1) := by
+  have := bus_errors_counts_from w l 0 (Nat.zero_le _)
+  simpa [maxVal] using this
+
+example : (BusErr.machine 2).run [true, false, true, true, true, true] = 3 := by decide
+
+end busErr
 
 /-! ## Wishbone `Crossbar`: `timeout_cycles` is ignored (known finding C11-crossbar-timeout-ignored) -/
 
